@@ -1,17 +1,24 @@
-// val.load <class> <cap> <config> <doc tokens>
+// val.load <class> <cap> <config> <doc tokens>       MismatchedTypesPolicy::Skip
+// val.loadt <class> <cap> <config> <doc tokens>      MismatchedTypesPolicy::ThrowError (the library's default)
 //   class : flat | nested | vec | map      (fixed C++ classes below)
 //   cap   : SerializationOptions::maxValidationErrors
 //   config: <field>=<v>,<v>..;<field>=..   validators per field IN DECLARATION ORDER (at most 4), `-` = none
-//           fields: i s o v (members of Flat)  n k (Nested)  items (Vec)  m (Map)
+//           fields: i s o v e (members of Flat)  n k (Nested)  items (Vec)  m (Map)
+//             e is a REGISTERED ENUM (harness/valid_enum.h: ValTone { Low, Mid, High }, names "Low" "Mid" "High"), initial value Mid.
+//             Validators that compile for an enum: Required, Range<ValTone> (built-in < on the enumerators; its DEFAULT message
+//             prints the registered NAMES of the bounds, so only the custom-message form G!<lo>:<hi> is offered here, bounds =
+//             underlying values), custom lambdas. MinSize / MaxSize (static_assert: no size()), Email / PhoneNumber (string
+//             views only) do not compile for an enum -> BadOp.
 //           R R!            Required (default / custom message)
 //           G<lo>:<hi> G!.. Range<int64>      N<n> N!<n> MinSize      X<n> X!<n> MaxSize
 //           E+ E-           Email (the generator's expectation is part of the code; the real Email functor runs)
 //           P+ P-           PhoneNumber(7, 15, true, "bad phone")
-//           Ce Ca Cu        custom lambdas: fails when loaded and odd value/size | always | when not loaded
+//           Ce Ca Cu Cv     custom lambdas: fails when loaded and odd value/size | always | when not loaded | when the value/size is
+//                           odd whatever isLoaded says (an unloaded field shows its untouched value)
 //   doc   : MsgPack tokens (mini encoder, same syntax as mp.scope)
 // answer: ok <state> | validation <path>=[msg|msg];<path>=[..] [<state>] | err <class>
 //   messages with ' ' -> '_'; paths sorted (std::map order); the state is printed when the load ran to its end
-//   (cap == 0 or fewer failing fields than the cap).
+//   (cap == 0 or fewer failing fields than the cap). Flat state: i:s:o:v:e, e = underlying value of the enum member.
 //
 // val.phone[z|16|32|w] <min> <max> <plus 0|1> <loaded 0|1> <string>      PhoneNumber(min, max, plus)(string, loaded), default messages
 // val.email[z|16|32|w] <loaded 0|1> <string>                              Email()(string, loaded)
@@ -30,6 +37,7 @@
 #include "bitserializer/types/std/vector.h"
 #include "bitserializer/types/std/map.h"
 #include "bitserializer/types/std/optional.h"
+#include "valid_enum.h"
 
 using namespace vh;
 using namespace BitSerializer;
@@ -95,7 +103,7 @@ std::vector<std::string> split(const std::string& s, char sep) {
 
 // ---- runtime-configured validators: the REAL functors of validators.h, chosen per (field, slot) by the op ----
 struct VSpec { char kind = 0; char sub = 0; bool custom = false; int64_t a = 0, b = 0; };
-enum FieldId { F_i, F_s, F_o, F_v, F_n, F_k, F_items, F_m, F_count };
+enum FieldId { F_i, F_s, F_o, F_v, F_e, F_n, F_k, F_items, F_m, F_count };
 std::vector<VSpec> g_cfg[F_count];
 
 template <class T, class = void> struct HasSize : std::false_type {};
@@ -103,6 +111,7 @@ template <class T> struct HasSize<T, std::void_t<decltype(std::declval<const T&>
 
 template <class T> int64_t oddness(const T& value) {
 	if constexpr (std::is_same_v<T, int64_t>) return value & 1;
+	else if constexpr (std::is_enum_v<T>) return static_cast<int64_t>(value) & 1;
 	else if constexpr (HasSize<T>::value) return static_cast<int64_t>(value.size() & 1);
 	else return 0;
 }
@@ -117,6 +126,10 @@ struct Dyn {
 		case 'R': return v.custom ? Required("custom required")(value, loaded) : Required()(value, loaded);
 		case 'G':
 			if constexpr (std::is_same_v<T, int64_t>) return Range<int64_t>(v.a, v.b, v.custom ? "custom range" : nullptr)(value, loaded);
+			else if constexpr (std::is_enum_v<T>) {
+				if (!v.custom) throw BadOp("range on an enum: custom message only");
+				return Range<T>(static_cast<T>(v.a), static_cast<T>(v.b), "custom range")(value, loaded);
+			}
 			else throw BadOp("range on a non-integer field");
 		case 'N':
 			if constexpr (HasSize<T>::value) return MinSize(static_cast<size_t>(v.a), v.custom ? "custom min" : nullptr)(value, loaded);
@@ -140,6 +153,12 @@ struct Dyn {
 				auto fn = [](const T&, bool) -> std::optional<std::string> { return "always"; };
 				return fn(value, loaded);
 			}
+			if (v.sub == 'v') {
+				// looks at the value only (whatever isLoaded says): a field that was not loaded shows its untouched value
+				auto fn = [](const T& val, bool) -> std::optional<std::string> { if (oddness(val) != 0) return "oddvalue"; return std::nullopt; };
+				return fn(value, loaded);
+			}
+			if (v.sub != 'u') throw BadOp("custom");
 			auto fn = [](const T&, bool isLoaded) -> std::optional<std::string> { if (!isLoaded) return "unloaded"; return std::nullopt; };
 			return fn(value, loaded);
 		}
@@ -149,7 +168,7 @@ struct Dyn {
 };
 
 int fieldId(const std::string& n) {
-	static const char* names[] = { "i", "s", "o", "v", "n", "k", "items", "m" };
+	static const char* names[] = { "i", "s", "o", "v", "e", "n", "k", "items", "m" };
 	for (int i = 0; i < F_count; ++i) if (n == names[i]) return i;
 	throw BadOp("field");
 }
@@ -190,16 +209,19 @@ struct Flat {
 	std::string s;
 	std::optional<int64_t> o;
 	std::vector<int64_t> v;
+	ValTone e = kValToneInitial;
 	template <class TArchive> void Serialize(TArchive& archive) {
 		archive << KeyValue("i", i, DYN4(F_i));
 		archive << KeyValue("s", s, DYN4(F_s));
 		archive << KeyValue("o", o, DYN4(F_o));
 		archive << KeyValue("v", v, DYN4(F_v));
+		archive << KeyValue("e", e, DYN4(F_e));
 	}
 	std::string state() const {
 		std::string r = std::to_string(i) + ":" + hexBytes(s) + ":" + (o ? std::to_string(*o) : std::string("-")) + ":";
 		if (v.empty()) r += "e";
 		for (size_t k = 0; k < v.size(); ++k) { if (k) r.push_back('.'); r += std::to_string(v[k]); }
+		r += ":" + std::to_string(static_cast<long long>(e));
 		return r;
 	}
 };
@@ -237,9 +259,9 @@ struct Map {
 std::string canonMsg(std::string m) { for (auto& c : m) if (c == ' ') c = '_'; return m; }
 
 template <class T>
-std::string run(uint32_t cap, const std::string& doc) {
+std::string run(uint32_t cap, const std::string& doc, MismatchedTypesPolicy policy) {
 	SerializationOptions options;
-	options.mismatchedTypesPolicy = MismatchedTypesPolicy::Skip;
+	options.mismatchedTypesPolicy = policy;
 	options.maxValidationErrors = cap;
 	T obj;
 	try {
@@ -262,18 +284,23 @@ std::string run(uint32_t cap, const std::string& doc) {
 	}
 }
 
-Register v1("val.load", [](const Tokens& t) -> std::string {
-	if (t.size() != 5) throw BadOp("arity");
-	const auto cap = static_cast<uint32_t>(std::stoul(t[2]));
-	parseConfig(t[3]);
-	std::string doc;
-	for (auto& tok : split(t[4], ',')) encodeTok(doc, tok);
-	if (t[1] == "flat") return run<Flat>(cap, doc);
-	if (t[1] == "nested") return run<Nested>(cap, doc);
-	if (t[1] == "vec") return run<Vec>(cap, doc);
-	if (t[1] == "map") return run<Map>(cap, doc);
-	throw BadOp("class");
-});
+Handler loadOp(MismatchedTypesPolicy policy) {
+	return [policy](const Tokens& t) -> std::string {
+		if (t.size() != 5) throw BadOp("arity");
+		const auto cap = static_cast<uint32_t>(std::stoul(t[2]));
+		parseConfig(t[3]);
+		std::string doc;
+		for (auto& tok : split(t[4], ',')) encodeTok(doc, tok);
+		if (t[1] == "flat") return run<Flat>(cap, doc, policy);
+		if (t[1] == "nested") return run<Nested>(cap, doc, policy);
+		if (t[1] == "vec") return run<Vec>(cap, doc, policy);
+		if (t[1] == "map") return run<Map>(cap, doc, policy);
+		throw BadOp("class");
+	};
+}
+
+Register v1("val.load", loadOp(MismatchedTypesPolicy::Skip));
+Register v2("val.loadt", loadOp(MismatchedTypesPolicy::ThrowError));
 
 
 // ---- the text validators, called directly ----
